@@ -33,7 +33,7 @@ const POOL: &[(&str, &str)] = &[
     ("Rd", "/\\d+/"),
     ("Rid", "/[a-c]\\d*/"),
     ("Rcx", "/c[ab]*/"),
-    ("Ralt", "/(ab|c)/"),
+    ("Ralt", "/ab|c/"),
     ("Ralt2", "/(b|abc)/"),
     ("Rany", "/[a-c1]/"),
 ];
